@@ -42,7 +42,7 @@ type lsCase struct {
 	// i.e. one shard per repository). With a small limit the "big" contents
 	// (ids >= lsSmallContents) span several shards.
 	ShardLimit int `json:",omitempty"`
-	Steps       []lsStep
+	Steps      []lsStep
 }
 
 // lsStep = mutations of the root directories (and, for Op "shard", of the
